@@ -1014,6 +1014,17 @@ func (g *gen) genFirst(n int) {
 				g.emit("STR x")
 			}
 		}
+		// all 256 first bytes decoded first and kept, written back only afterwards, in a shuffled order
+		// (a packet handed out by the dispatch must keep its header whatever is decoded after it)
+		g.emit("RESET")
+		g.emit("NOTE case=firstkeep")
+		order := g.r.Perm(256)
+		for _, b0 := range order {
+			g.emit("RD k%d %s sched=- eofwd=0 fail=eof calls=1", b0, hx([]byte{byte(b0), 0}))
+		}
+		for _, b0 := range g.r.Perm(256) {
+			g.emit("ENC k%d", b0)
+		}
 	}
 }
 
@@ -1064,7 +1075,32 @@ func (g *gen) genPool(n int) {
 						body = sb
 					}
 				}
-				if len(body) > 2000 {
+				big := false
+				if kinds[i] == "Publish" && g.chance(0.15) {
+					// a payload of some kilobytes (a decoder might keep a window into the caller's slice for those)
+					sz := []int{4095, 4096, 4097, 5000, 20000}[g.r.Intn(5)]
+					g.emit("NEW %s Publish", slot)
+					g.emit("SET %s SetQoS 0", slot)
+					body = append([]byte{0, 1, 't', 0}, g.bytesN(sz)...)
+					big = true
+				}
+				if len(body) > 2000 && !big {
+					continue
+				}
+				if kinds[i] != "Undefined" && kinds[i] != "Publish" && !big && g.chance(0.3) {
+					// through ReadPacket instead: the packet the dispatch hands out (any header flags for the pings)
+					first := map[string]byte{"Connect": 0x10, "ConnAck": 0x20, "PubAck": 0x40, "PubRec": 0x50, "PubRel": 0x62,
+						"PubComp": 0x70, "Subscribe": 0x82, "SubAck": 0x90, "Unsubscribe": 0xa2, "UnsubAck": 0xb0, "PingReq": 0xc0,
+						"PingResp": 0xd0, "Disconnect": 0xe0, "Auth": 0xf0}[kinds[i]]
+					if kinds[i] == "PingReq" || kinds[i] == "PingResp" {
+						first |= byte(g.r.Intn(16))
+						body = nil
+					}
+					g.emit("RD %s %s sched=- eofwd=0 fail=eof calls=1", slot, hx(reframe(first, body)))
+					for j := 0; j < m; j++ {
+						g.emit("VIEW s%d", j)
+						g.emit("ENC s%d", j)
+					}
 					continue
 				}
 				g.emit("DEC %s %s", slot, hxd(body))
@@ -1084,6 +1120,7 @@ func (g *gen) genPool(n int) {
 			}
 			for j := 0; j < m; j++ {
 				g.emit("VIEW s%d", j)
+				g.emit("ENC s%d", j)
 			}
 		}
 	}
@@ -1278,6 +1315,9 @@ func (g *gen) genWF(n int) {
 		g.emit("STR p")
 		// the same packet decoded from the wire
 		g.emit("ENC p")
+		g.emit("RDP p q")
+		g.emit("WF q")
+		g.emit("STR q")
 	}
 }
 
